@@ -235,7 +235,7 @@ def main(argv=None):
     case_of = {(hid, ci): case for hid, ci, case in tasks}
 
     def do_group(group):
-        tmo = max((REGISTRY[h]['timeout'] or (600 if tier == 'quick' else 3600)) for h, _ in group)
+        tmo = max((REGISTRY[h]['timeout'] or (300 if tier == 'quick' else 3600)) for h, _ in group)
         out = []
         todo = list(group)
         while todo:
@@ -282,9 +282,21 @@ def main(argv=None):
         for p in r.get('pending', []):
             pend.append((r, p))
 
+    solve_deadline = time.time() + float(os.environ.get('SYMOPT_SOLVE_BUDGET_S', '240' if tier == 'quick' else '3600'))
+    found_cex = set()
+
     def do_pending(rp):
         r, p = rp
+        key = None
+        if p['kind'] == 'ob':
+            key = (r['hid'], r['case_idx'], r['paths'][p['path']]['obligations'][p['ob']]['name'])
+            if key in found_cex:
+                return dict(verdict='unknown', log=[('skipped: a counterexample for this obligation of this case is already known',)], time=0)
+        if time.time() > solve_deadline:
+            return dict(verdict='unknown', log=[('skipped: solver time budget of this run exhausted',)], time=0)
         d = discharge(p, qbudget, solvers)
+        if key is not None and d['verdict'] == 'cex':
+            found_cex.add(key)
         return d
     if pend:
         with ThreadPoolExecutor(max_workers=max(1, a.jobs // 3)) as ex:
